@@ -461,14 +461,17 @@ func (m *Manager) TerminateSession(ctx context.Context, sessionID string, reason
 		m.mu.Unlock()
 		return fmt.Errorf("session not found: %s", sessionID)
 	}
-	if session.State == StateTerminating {
+	if session.terminating || session.State == StateTerminating {
 		// Another caller is already tearing this session down; releasing its
-		// addresses a second time could free them under a new owner.
+		// addresses a second time could free them under a new owner. The flag,
+		// not State, is what counts: ActivateSession, SetWalledGarden,
+		// ClearWalledGarden, Authenticate and AssignAddress overwrite State.
 		m.mu.Unlock()
 		return fmt.Errorf("session already terminating: %s", sessionID)
 	}
 
 	oldState := session.State
+	session.terminating = true
 	session.State = StateTerminating
 	session.StateReason = string(reason)
 	session.UpdatedAt = time.Now()
